@@ -1254,6 +1254,14 @@ func (c *FCtx) afterAsserts(st *State, s ast.Stmt) {
 							hyps = append(hyps, h)
 						}
 					}
+					// `use`d lemmas stay available (the relevance filter drops those about other functions)
+					lemmaHypMu.Lock()
+					for _, h := range st.pc {
+						if lemmaHyp[h] {
+							hyps = append(hyps, h)
+						}
+					}
+					lemmaHypMu.Unlock()
 					c.oblige(&State{pc: hyps}, "assert", name, t, c.eng.pos(s))
 				} else {
 					c.oblige(st, "assert", name, t, c.eng.pos(s))
